@@ -267,6 +267,8 @@ def load_one(lit: LineIterator, norm_threshold: float = 1e-4) -> dict:
             irrepsa + irrepsb,
         )
 
+    if atcharges is not None and len(atcharges["mulliken"]) != len(atnums):
+        raise LoadError("The number of charges differs from the number of atoms.", lit)
     result = {
         "atcoords": atcoords,
         "atnums": atnums,
